@@ -279,7 +279,7 @@ pub fn decode(s: &mut Src) -> TreeCase {
 
 pub fn run(ctx: &Ctx) -> Report {
     let mut rep = Report::new(
-        "Differential: html5ever's parse_document / parse_fragment into the ModelDom sink vs an independent transcription of WHATWG 13.2.6 (refimpl::treebuilder, arena DOM, coupled to the reference tokenizer as the standard couples them): canonical dumps (node kinds and order, element names and namespaces, attribute names/namespaces/prefixes/values in order, text, comments, doctype name and ids, template contents, per-element duplicate-attribute flag) and the reported quirks mode must be equal. Search: (1) grammar-generated inputs (0..40 tokens over a dictionary of every element the tree-construction rules name, attributes that matter to the rules, text/NUL/whitespace, comments, doctypes from the quirks tables, CDATA, structure shortcuts, character noise) as documents and as fragments under ~50 context elements (HTML, SVG, MathML incl. annotation-xml with/without encoding), scripting on/off, iframe_srcdoc, initial quirks mode, declarative-shadow-root policy, caller-supplied form pointer; (2) every sequence of <= 2 (thorough 3) tokens over ~110 tag tokens (start/end of 49 structurally relevant names, text, whitespace, comment, NUL, hidden input, font color, annotation-xml encoding) in document mode and (quick: length 2) in 8 fragment contexts; (3) doctype sweep: every entry of the quirks tables x {exact, upper-cased, extended, prefixed, truncated} x system id {absent, empty, ibm, other} x name {html, HTML, foo} x iframe_srcdoc. Non-trivial: the reference's counters show adoption agency with a furthest block, Noah's Ark removal, reconstruction, foster parenting, reset-insertion-mode, foreign content, break-out, template, frameset replacing body, head re-push, content after </body>, or a non-div fragment context, or quirks != NoQuirks; distinct by hash of (configuration, input).",
+        "Differential: html5ever's parse_document / parse_fragment into the ModelDom sink vs an independent transcription of WHATWG 13.2.6 (refimpl::treebuilder, arena DOM, coupled to the reference tokenizer as the standard couples them): canonical dumps (node kinds and order, element names and namespaces, attribute names/namespaces/prefixes/values in order, text, comments, doctype name and ids, template contents, per-element duplicate-attribute flag) and the reported quirks mode must be equal. Search: (1) grammar-generated inputs (0..40 tokens over a dictionary of every element the tree-construction rules name, attributes that matter to the rules, text/NUL/whitespace, comments, doctypes from the quirks tables, CDATA, structure shortcuts, character noise) as documents and as fragments under ~50 context elements (HTML, SVG, MathML incl. annotation-xml with/without encoding), scripting on/off, iframe_srcdoc, initial quirks mode, declarative-shadow-root policy, caller-supplied form pointer; (2) every sequence of <= 2 (thorough 3) tokens over ~110 tag tokens (start/end of 49 structurally relevant names, text, whitespace, comment, NUL, hidden input, font color, annotation-xml encoding) in document mode and (quick: length 2) in 8 fragment contexts; (3) doctype sweep: every entry of the quirks tables x {exact, upper-cased, extended, prefixed, truncated} x system id {absent, empty, ibm, other} x name {html, HTML, foo} x iframe_srcdoc. Non-trivial: the reference's counters show adoption agency with a furthest block, Noah's Ark removal, reconstruction, foster parenting, reset-insertion-mode, foreign content, break-out, template, frameset replacing body, head re-push, content after </body>, or a non-div fragment context, or quirks != NoQuirks; distinct by hash of (configuration, input). (4) every fragment context (HTML names the fragment algorithm consults, the same names in the SVG and MathML namespaces, foreign names in the HTML namespace, annotation-xml with exact and near-miss encoding values) x with/without a form pointer x every sequence of <=3 (thorough: 4) probe tokens.",
     );
     rep.assume("reference tree builder (harness/src/refimpl/treebuilder.rs, tb_modes.rs) transcribes the living standard from memory (no network); the customizable-select rules (select/option/optgroup/hr/input in select) mirror html5ever's reading and are tested for self-consistency only");
     rep.assume("maybe-clone-an-option-into-selectedcontent is a no-op on both sides (RcDom's duty, C20)");
@@ -335,6 +335,44 @@ pub fn run(ctx: &Ctx) -> Report {
     rep.absorb(out);
     rep.extra.insert("exhaustive_tag_sequences".into(), json!({"tokens": n, "max_len": depth, "contexts": frag_ctx.len(), "cases": total * frag_ctx.len() as u64}));
     rep.extra.insert("doctype_sweep".into(), json!({"cases": sweep.len()}));
+    // (4) every fragment context x short probe sequences (the context element decides the
+    // tokenizer state, the insertion mode, the form pointer and the integration-point status)
+    {
+        let all = all_contexts();
+        let probes: &[&str] = &[
+            "<p>", "<form>", "x", "<td>", "<tr>", "</p>", "<svg>", "<b>", "<option>", "<input>", "<div>", "</template>", "<title>", " ",
+        ];
+        let np = probes.len() as u64;
+        let pd = ctx.tier.pick(3u32, 4u32);
+        let per: u64 = (1..=pd).map(|d| np.pow(d)).sum();
+        let out = run_exhaustive(per * all.len() as u64 * 2, |idx, st| {
+            let form_ptr = idx % 2 == 1;
+            let idx = idx / 2;
+            let ci = (idx % all.len() as u64) as usize;
+            let mut k = idx / all.len() as u64;
+            let mut d = 1;
+            loop {
+                let c = np.pow(d);
+                if k < c {
+                    break;
+                }
+                k -= c;
+                d += 1;
+            }
+            let mut input = String::new();
+            for _ in 0..d {
+                input.push_str(probes[(k % np) as usize]);
+                k /= np;
+            }
+            let mut cfg = TreeCfg::default();
+            cfg.ctx = Some(all[ci].clone());
+            cfg.form_ptr = form_ptr;
+            let tc = TreeCase { cfg, input: input.clone(), chunks: vec![input] };
+            check_with(&tc, &kf, st).map_err(|what| Failure { case: serde_json::to_value(&tc).unwrap(), what })
+        });
+        rep.absorb(out);
+        rep.extra.insert("fragment_context_probes".into(), json!({"contexts": all.len(), "probe_tokens": np, "max_len": pd, "cases": per * all.len() as u64 * 2}));
+    }
     // (1) grammar
     let out = run_random(ctx.seed, ctx.tier.pick(4_000_000, 60_000_000), 1500, decode, |c, st| check_with(c, &kf, st));
     rep.absorb(out);
